@@ -1257,6 +1257,8 @@ def derived_observable(func, data, array_mode=False, **kwargs):
     new_names = sorted(set([y for x in [o.names for o in raveled_data] for y in x]) - {"###dummy_covobs###"})
     new_cov_names = sorted(set([y for x in [o.cov_names for o in raveled_data] for y in x]) - {"###dummy_covobs###"})
     new_sample_names = sorted(set(new_names) - set(new_cov_names))
+    if not set(y.split('|')[0] for o in raveled_data for y in o.deltas).isdisjoint(new_cov_names):
+        raise ValueError('The same name has been used for a Monte Carlo ensemble and a covariance input!')
 
     reweighted = len(list(filter(lambda o: o.reweighted is True, raveled_data))) > 0
 
